@@ -229,6 +229,10 @@ class Gen:
         prefix, body, first = self.strip_prefix(it, strip_derive=strip_derive)
         if 'keep_pub' not in opts:
             body = self.strip_pub(body)
+        elif 'widen_pub' in opts:
+            # N0 variant: `pub(crate)` -> `pub` (single-file crate; needed where a trusted spec must mention the fields)
+            body, n = re.subn(r'\bpub\s*\(crate\)', 'pub', body)
+            self.norm_counts['N0_pub'] += n
         body = self.strip_inner_docs(body)
         dropped = []
         if opts.get('drop'):
@@ -265,7 +269,7 @@ class Gen:
             self._do_fn(is_stub, rel, impl_match, name, opts, sections, record=True)
             # ... and a renamed twin carrying `ensures false` (inherent fns only: a trait impl cannot hold a twin)
             self.canary = saved
-            if '>for' in impl_match or ' for ' in impl_match:
+            if ('>for' in impl_match or ' for ' in impl_match or '~for~' in impl_match) and 'inherent' not in opts:
                 self.functions[-1]['no_exit_canary'] = True
                 return
             self._do_fn(is_stub, rel, impl_match, name, opts, sections, record=False, twin=True)
@@ -277,6 +281,7 @@ class Gen:
         m = re.match(r'^(.*>)for([A-Z]\w*)$', impl_match)
         if m:
             impl_match = '%s for %s' % (m.group(1), m.group(2))
+        impl_match = impl_match.replace('~', ' ')
         f = self.rf(rel)
         it = f.find_fn(name, impl_match)
         qual = (impl_match + '::' if impl_match != '-' else '') + name
